@@ -268,6 +268,14 @@ fn sig_of(md: &[u8]) -> &'static str {
 /// specification's rule "a list is loose if any of its constituent list items are separated by
 /// blank lines, or if any of its constituent list items directly contain two block-level elements
 /// with a blank line between them".
+const FENCE_PROBES: &[(&str, &str)] = &[
+    ("```\n~~~\n```\n", "<pre><code>~~~\n</code></pre>\n"),
+    ("~~~ markdown\n```\nlet x = 1;\n```\n~~~\n\nafter\n", "<pre><code class=\"language-markdown\">```\nlet x = 1;\n```\n</code></pre>\n<p>after</p>\n"),
+    ("````\n```\n~~~~~\n````\n", "<pre><code>```\n~~~~~\n</code></pre>\n"),
+    ("- ```\n  ~~~\n  ```\n", "<ul>\n<li>\n<pre><code>~~~\n</code></pre>\n</li>\n</ul>\n"),
+    ("> ~~~\n> ````\n> ~~~\n", "<blockquote>\n<pre><code>````\n</code></pre>\n</blockquote>\n"),
+];
+
 const HR_PROBES: &[(&str, &str)] = &[
     ("- ___\n\n- a\n", "<ul>\n<li>\n<hr />\n</li>\n<li>\n<p>a</p>\n</li>\n</ul>\n"),
     ("1. ***\n\n   b\n", "<ol>\n<li>\n<hr />\n<p>b</p>\n</li>\n</ol>\n"),
@@ -576,6 +584,52 @@ pub fn run(cfg: &Cfg, rep: &mut Report) {
             Err(e) => rep.fail("canon-total", "panic", format!("case {} {}", hex(md.as_bytes()), hex(html.as_bytes())), e),
         }
     }
+    // every named character reference of HTML5 (table copied from an independent source), in text and in a title
+    {
+        let table = std::fs::read_to_string("/verif/audit/html5_entities.tsv").unwrap_or_default();
+        let esc = |s: &str| s.replace('&', "&amp;").replace('<', "&lt;").replace('>', "&gt;").replace('"', "&quot;");
+        let mut n = 0u64;
+        for line in table.lines() {
+            if line.starts_with('#') || line.is_empty() {
+                continue;
+            }
+            let mut it = line.split('\t');
+            let (name, cps) = match (it.next(), it.next()) {
+                (Some(a), Some(b)) => (a, b),
+                _ => continue,
+            };
+            let val: String = cps.split(' ').filter_map(|h| u32::from_str_radix(h, 16).ok()).filter_map(char::from_u32).collect();
+            // a reference that decodes to white space or to a character that starts a construct is set between letters
+            let md = format!("a&{};b [t](/u \"x&{};y\")\n", name, name);
+            let html = format!("<p>a{}b <a href=\"/u\" title=\"x{}y\">t</a></p>\n", esc(&val), esc(&val));
+            n += 1;
+            rep.s_evals += 1;
+            match real(&md) {
+                Ok(r) if r.html == html.as_bytes() => {}
+                Ok(r) => rep.fail(
+                    "html-vs-reference",
+                    "named-character-reference",
+                    format!("case {} {}", hex(md.as_bytes()), hex(html.as_bytes())),
+                    format!("&{}; is not decoded to U+{}: {}", name, cps, diff_window(&r.html, html.as_bytes())),
+                ),
+                Err(e) => rep.fail("canon-total", "panic", format!("case {} {}", hex(md.as_bytes()), hex(html.as_bytes())), e),
+            }
+        }
+        rep.add("named-character-references", n);
+        if n < 2000 {
+            rep.notes.push("the entity table /verif/audit/html5_entities.tsv could not be read".into());
+        }
+    }
+    // code fences: a line of the other fence character, or a shorter run of the same one, is content
+    for (md, html) in FENCE_PROBES {
+        rep.count("fence-probe");
+        rep.s_evals += 1;
+        match real(md) {
+            Ok(r) if r.html == html.as_bytes() => {}
+            Ok(r) => rep.fail("html-vs-reference", "fenced-code-content-line-looks-like-a-fence", format!("case {} {}", hex(md.as_bytes()), hex(html.as_bytes())), format!("{:?}: {}", md, diff_window(&r.html, html.as_bytes()))),
+            Err(e) => rep.fail("canon-total", "panic", format!("case {} {}", hex(md.as_bytes()), hex(html.as_bytes())), e),
+        }
+    }
     // a definition used many times: every use resolves while the total expansion stays below the cap
     // (100 kB or the document size, whichever is larger); written and rendered here, independently
     for (url_len, uses, after) in [(70usize, 4usize, false), (200, 30, true), (500, 100, false), (2000, 40, true), (30, 900, false)] {
@@ -633,6 +687,81 @@ pub fn run(cfg: &Cfg, rep: &mut Report) {
                         rep.k_disagree.insert(0, c);
                     }
                     break;
+                }
+            }
+        }
+    }
+}
+
+/// The canonical documents of `cm_fixed_point_canon_partial` (driver `canoncm <seed> <size>`): the model
+/// says `renderCm {} d.toTree = d.write` on them. K: the real parser returns `d.toTree` for `d.write`;
+/// S: the real writer returns `d.write` for that tree (so writing is idempotent on the class, on the real code).
+pub fn run_canoncm_one(rep: &mut Report, seed: u64) {
+    run_canoncm_range(rep, seed, seed)
+}
+
+pub fn run_canoncm(rep: &mut Report, seeds: u64) {
+    run_canoncm_range(rep, 1, seeds)
+}
+
+fn run_canoncm_range(rep: &mut Report, lo: u64, hi: u64) {
+    let m = Model::from_env();
+    let mut reqs: Vec<String> = vec![];
+    for seed in lo..=hi {
+        for size in [3usize, 9, 14] {
+            reqs.push(format!("canoncm {} {}", seed, size));
+        }
+    }
+    let resps = m.batch(&reqs);
+    for (req, resp) in reqs.iter().zip(resps.iter()) {
+        let body = match crate::model::ok(resp) {
+            Ok(b) => b,
+            Err(e) => {
+                rep.disagree("driver", req.clone(), e);
+                continue;
+            }
+        };
+        let mut it = body.splitn(4, ' ');
+        let (hyp, eq, md, tree) = match (it.next(), it.next(), it.next().and_then(unhex), it.next()) {
+            (Some(h), Some(e), Some(md), Some(t)) => (h == "1", e == "1", md, t.to_string()),
+            _ => {
+                rep.disagree("driver", req.clone(), "unparsable canoncm answer".into());
+                continue;
+            }
+        };
+        rep.count("canoncm-documents");
+        if !hyp {
+            rep.count("canoncm-outside-hypotheses");
+            continue;
+        }
+        rep.k_evals += 1;
+        if !eq {
+            rep.disagree("cm-fixed-point-model", req.clone(), "the driver evaluates renderCm {} d.toTree != d.write on a document that satisfies the hypotheses of cm_fixed_point_canon_partial".into());
+        }
+        let mds = match String::from_utf8(md.clone()) {
+            Ok(s) => s,
+            Err(_) => continue,
+        };
+        let mut o = Options::default();
+        o.extension.strikethrough = true;
+        o.extension.tasklist = true;
+        let r = catch_unwind(AssertUnwindSafe(|| {
+            let arena = Arena::new();
+            let root = parse_document(&arena, &mds, &o);
+            let mut cm = Vec::new();
+            comrak::format_commonmark(root, &o, &mut cm).unwrap();
+            (ser_nopos(root), cm)
+        }));
+        match r {
+            Err(_) => rep.fail("canon-total", "panic", req.clone(), format!("parse or format_commonmark panics on {:?}", show(&md))),
+            Ok((real_tree, cm)) => {
+                rep.k_evals += 1;
+                if real_tree != tree {
+                    rep.disagree("canon-tree", req.clone(), format!("parse_document(write d) != toTree d on {:?}: {}", show(&md), wire_diff(&real_tree, &tree)));
+                }
+                rep.s_evals += 1;
+                if cm != md {
+                    rep.fail("cm-fixed-point-canon", "canonical-document", format!("{} {}", req, hex(&md)), format!("format_commonmark(parse x) != x for the canonical document x = {:?}: {}", show(&md), diff_window(&cm, &md)));
                 }
             }
         }
